@@ -415,25 +415,35 @@ class SVGLexicalParser:
             elif cmd == "h":
                 while True:
                     value = self._number()
+                    if value is None:
+                        raise ValueError
                     self.parser.horizontal(value, relative=True)
                     if not self._more():
                         break
             elif cmd == "H":
                 while True:
                     value = self._number()
+                    if value is None:
+                        raise ValueError
                     self.parser.horizontal(value, relative=False)
                     if not self._more():
                         break
             elif cmd == "v":
                 while True:
                     value = self._number()
+                    if value is None:
+                        raise ValueError
                     self.parser.vertical(value, relative=True)
                     if not self._more():
                         break
             elif cmd == "V":
-                while self._more():
+                while True:
                     value = self._number()
+                    if value is None:
+                        raise ValueError
                     self.parser.vertical(value, relative=False)
+                    if not self._more():
+                        break
             elif cmd == "c":
                 while True:
                     coord1, coord2, coord3 = (
@@ -531,7 +541,7 @@ class SVGLexicalParser:
                     if not self._more():
                         break
             elif cmd == "a":
-                while self._more():
+                while True:
                     rx, ry, rotation, arc, sweep, coord = (
                         self._number(),
                         self._number(),
@@ -547,8 +557,10 @@ class SVGLexicalParser:
                         if coord is None:
                             raise ValueError
                     self.parser.arc(rx, ry, rotation, arc, sweep, coord, relative=True)
+                    if not self._more():
+                        break
             elif cmd == "A":
-                while self._more():
+                while True:
                     rx, ry, rotation, arc, sweep, coord = (
                         self._number(),
                         self._number(),
@@ -557,11 +569,15 @@ class SVGLexicalParser:
                         self._flag(),
                         self._coord(),
                     )
+                    if sweep is None:
+                        raise ValueError
                     if coord is None:
                         coord = self.inline_close
                         if coord is None:
                             raise ValueError
                     self.parser.arc(rx, ry, rotation, arc, sweep, coord, relative=False)
+                    if not self._more():
+                        break
         self.parser.end()
 
 
